@@ -44,7 +44,7 @@ RULE = ('sequences of 1-10 blocks on systems drawn from 8 raster families (Sieme
         'delays, all raster-aligned (stream valid: report must be empty, write() must not warn). Fault streams overwrite one or '
         '2-4 timing fields: +0.5 / +0.3 / +2e-4 / +1e-5 raster (must be reported), +1e-9 raster (must not), ADC delay on the '
         'ADC but not the RF raster, negative delays, delays below the dead time, events built for a system with shorter dead '
-        'times / ring-down, stored block duration cut, extended or moved off the block raster, a field or the block duration moved by one step of ANOTHER raster of the system, repeated blocks (same events, other padding, valid or off raster), seconds-long delays (1e5-3e6 block rasters) with tiny offsets. Oracle: TimingValid/Violates '
+        'times / ring-down, stored block duration cut, extended or moved off the block raster, a field or the block duration moved by one step of ANOTHER raster of the system, repeated blocks (same events, other padding, valid or off raster), seconds-long delays (1e5-3e6 block rasters) with tiny offsets; 30% of the RF/ADC dead and ring-down times are NOT on the RF raster (delays one aligned step below them must be reported). Object histories (110 quick): one Sequence object goes through add_block / set_block / read() of another (mostly invalid) file / remove_duplicates(in_place) / assignment of another system / repeated check_timing, and after every step the report must equal the oracle for the CURRENT content of the object. Oracle: TimingValid/Violates '
         'recomputed with exact Fractions from the decoded blocks must equal the multiset of (block,event,field,kind) returned '
         'by seq.check_timing(); every injected fault must appear. Correspondence: the extracted Coq model must return the same '
         'ordered report and the same calc_duration per block. non-trivial = at least one error reported or >= 3 event kinds')
@@ -562,9 +562,26 @@ def run(ctx):
     if Fraction(repr(float(pp.eps))) != tg.EPS:
         ctx.fail('C10/eps-changed', {'eps': float(pp.eps)}, {'expected': float(tg.EPS)})
     n = {'quick': 1100, 'thorough': 40000}[ctx.tier]
+    # (first: an escalated run must not spend its whole time box on the single-shot cases)
+    # object histories
+    hr = ctx.rng('histories')
+    pending = []
+    for i in range({'quick': 110, 'thorough': 1500}[ctx.tier]):
+        if ctx.out_of_time():
+            ctx.notes.append('time budget reached after %d histories' % i)
+            break
+        case = gen_history(hr)
+        for it in evaluate_history(ctx, case):
+            if ctx.model_available and it['sig'] is None:
+                pending.append((case, it))
+        if i == 3:
+            ctx.sample({'stream': 'history', 'steps': [st[0] for st in case['steps']]})
+    if pending and ctx.model_available:
+        compare_model(ctx, pending)
     rng = ctx.rng('sequences')
     streams = ['valid'] * 3 + ['fault1'] * 4 + ['faultN'] * 2 + ['alt']
-    cases = corpus() + [gen_case(rng, streams[i % len(streams)]) for i in range(n)]
+    import itertools
+    cases = itertools.chain(corpus(), (gen_case(rng, streams[i % len(streams)]) for i in range(n)))     # lazily: time-boxed runs
     pending = []
     for i, case in enumerate(cases):
         if ctx.out_of_time():
@@ -585,21 +602,6 @@ def run(ctx):
     if pending and ctx.model_available:
         compare_model(ctx, pending)
         compare_rf_decode(ctx, pending)
-    # object histories
-    hr = ctx.rng('histories')
-    pending = []
-    for i in range({'quick': 110, 'thorough': 4000}[ctx.tier]):
-        if ctx.out_of_time():
-            ctx.notes.append('time budget reached after %d histories' % i)
-            break
-        case = gen_history(hr)
-        for it in evaluate_history(ctx, case):
-            if ctx.model_available and it['sig'] is None:
-                pending.append((case, it))
-        if i == 3:
-            ctx.sample({'stream': 'history', 'steps': [st[0] for st in case['steps']]})
-    if pending and ctx.model_available:
-        compare_model(ctx, pending)
 
 
 def replay(ctx, case):
